@@ -114,6 +114,15 @@ pub fn cases(rng: &mut Rng, tier: &str, driver: &Driver) -> (Vec<Case>, bool) {
             trees.push((format!("u{} v4124", u), "unary-string"));
         }
     }
+    // comparisons of every pair of string operands, incl. never-assigned variables (U$, V$), assigned-empty (B$) and literals
+    let strs = ["v5524", "v5624", "v4224", "s", "v4124", "s4849", "v4324", "s6869"]; // U$ V$ B$ "" A$ "HI" C$ "hi"
+    for op in ["eq", "ne", "lt", "le", "gt", "ge"] {
+        for a in strs {
+            for b in strs {
+                trees.push((format!("b{} {} {}", op, a, b), "string-compare"));
+            }
+        }
+    }
     // truthiness at the edge: tiny non-zero operands, rounding residue, empty / blank strings, in every logical context
     let tiny = ["n3c9cd2b297d889bc", "n3cb0000000000000", "n0000000000000001", "n01a56e1fc2f8f359", "bsub badd n3fb999999999999a n3fc999999999999a n3fd3333333333333", "bsub bsub n3ff0000000000000 n3feccccccccccccd n3fb999999999999a", "s", "s20", "v4224"];
     for x in tiny {
